@@ -19,6 +19,7 @@ func init() {
 		func(t *vcTrial) { vcRunC13(t, vc13Cfg{Kind: "shutdown", Clients: 1, D11: true, DeadlineMs: 400}) },
 		func(t *vcTrial) { vcRunC13(t, vc13Cfg{Kind: "shutdown", Clients: 6, Hold: 2, DeadlineMs: 60}) },
 		func(t *vcTrial) { vcRunC13(t, vc13Cfg{Kind: "emfile", Clients: 6}) },
+		vcRunC13EmfileShutdown,
 	}
 }
 
@@ -523,4 +524,107 @@ func vcRunC13Emfile(t *vcTrial, cfg vc13Cfg) {
 	t.Stat("served", int(atomic.LoadInt32(&served)))
 	t.Nontrivial = emfiles > 0
 	t.Sig = fmt.Sprintf("emfile|eps=%d|clients=%d", emfiles, vcMinInt(cfg.Clients/3, 3))
+}
+
+// vcRunC13EmfileShutdown: "Shutdown stops accepting" while the EMFILE back-off is in flight. The
+// exhaustion is produced at netpoll's accept wrapper (verifFault) so that its end is under the
+// harness's control. After Shutdown returned, a new listener of the *harness* receives the freed
+// descriptor number; a server that still accepts on that number steals the harness's client and
+// runs its callbacks although it was shut down.
+func vcRunC13EmfileShutdown(t *vcTrial) {
+	r := t.R
+	t.P("variant", "emfile-backoff-then-shutdown")
+	srv, err := vcStartServer(vcSrvOpts{Network: "tcp", NCloseCb: 1, OnRequest: func(ctx context.Context, rec *vcConnRec) error {
+		rec.Conn.Reader().Skip(rec.Conn.Reader().Len())
+		return nil
+	}})
+	if err != nil {
+		t.Inconclusive("server start: %v", err)
+		return
+	}
+	lnFD := srv.Ln.Fd()
+	mark := vcTraceMark()
+	fp := &vcFaultPlan{Rules: []*vcFaultRule{{Site: vfltAccept, Errno: syscall.EMFILE, FD: lnFD}}}
+	vcSetFaults(fp)
+	defer vcSetFaults(nil)
+	c1, err := net.DialTimeout("tcp", srv.Addr, 2*time.Second)
+	if err != nil {
+		srv.Stop(2 * time.Second)
+		t.Inconclusive("dial: %v", err)
+		return
+	}
+	defer c1.Close()
+	if !vcWaitPoint(mark, vpEmfileDetach, 0, 2*time.Second) {
+		srv.Stop(2 * time.Second)
+		t.Inconclusive("the accept path did not see the injected EMFILE")
+		return
+	}
+	// let the retry loop fail a few times (back-off 0,10,50,100,... ms)
+	time.Sleep(time.Duration(r.rng(1, 200)) * time.Millisecond)
+	before := atomic.LoadInt32(&srv.nacc)
+	serr := srv.Stop(3 * time.Second)
+	t.P("shutdown_result", fmt.Sprint(serr))
+	if open, _, _ := vcFstat(lnFD); open {
+		t.Inconclusive("descriptor %d still open after Shutdown (%v)", lnFD, serr)
+		return
+	}
+	// the harness's own listener on the freed number
+	bfd, err := syscall.Socket(syscall.AF_INET, syscall.SOCK_STREAM|syscall.SOCK_NONBLOCK, 0)
+	if err != nil {
+		t.Inconclusive("socket: %v", err)
+		return
+	}
+	if bfd != lnFD {
+		if err := syscall.Dup3(bfd, lnFD, 0); err != nil {
+			syscall.Close(bfd)
+			t.Inconclusive("dup3: %v", err)
+			return
+		}
+		syscall.Close(bfd)
+		bfd = lnFD
+	}
+	defer syscall.Close(bfd)
+	sa := &syscall.SockaddrInet4{}
+	copy(sa.Addr[:], net.IPv4(127, 0, 0, 1).To4())
+	if err := syscall.Bind(bfd, sa); err != nil {
+		t.Inconclusive("bind: %v", err)
+		return
+	}
+	if err := syscall.Listen(bfd, 16); err != nil {
+		t.Inconclusive("listen: %v", err)
+		return
+	}
+	lsa, _ := syscall.Getsockname(bfd)
+	baddr := fmt.Sprintf("127.0.0.1:%d", lsa.(*syscall.SockaddrInet4).Port)
+	vcSetFaults(nil) // descriptors are "available again"
+	c2, err := net.DialTimeout("tcp", baddr, 2*time.Second)
+	if err != nil {
+		t.Inconclusive("dial B: %v", err)
+		return
+	}
+	defer c2.Close()
+	// the longest back-off step is 1 s: give a still running retry loop two of them
+	stolen := false
+	for dl := time.Now().Add(2500 * time.Millisecond); time.Now().Before(dl); {
+		if atomic.LoadInt32(&srv.nacc) > before {
+			stolen = true
+			break
+		}
+		time.Sleep(2 * time.Millisecond)
+	}
+	if stolen {
+		t.Violate("C13", "accepts_after_shutdown", "Shutdown returned (%v) while the EMFILE retry loop was backing off; the listener's descriptor number %d was re-issued to another listening socket of the process, and the shut-down server accepted that listener's client and ran its OnPrepare callback: the retry goroutine outlives Shutdown and keeps calling accept on the stale number", serr, lnFD)
+		return
+	}
+	// the client is still the harness's
+	nfd, _, aerr := syscall.Accept(bfd)
+	if aerr != nil {
+		t.Violate("C13", "accepts_after_shutdown", "the client connected to the harness's listener (descriptor %d, formerly the server's) is gone from its backlog (%v) after the server's Shutdown", lnFD, aerr)
+		return
+	}
+	syscall.Close(nfd)
+	t.Stat("emfile_shutdown_trials", 1)
+	t.Stat("accept_faults_injected", int(fp.Fired()))
+	t.Nontrivial = fp.Fired() > 1
+	t.Sig = "emfile-shutdown"
 }
